@@ -2,7 +2,7 @@
    hypotheses of the soundness theorem are satisfiable), one rejected for each reason, and the run-time meaning of the
    two defect shapes of the pinned snapshot (self-deadlock; unprotected concurrent access). *)
 From Coq Require Import List String Bool Arith Lia.
-From V Require Import Conc.LockLang Conc.LockCheck Conc.LockInv Conc.LockSound.
+From V Require Import Conc.LockLang Conc.LockCheck Conc.LockInv Conc.LockSound Conc.LockAtomic.
 Import ListNotations.
 Local Open Scope string_scope.
 Local Open Scope list_scope.
@@ -158,4 +158,61 @@ Proof.
   - exists 0, 1, (Thread [Frame 0 "Search" None [Read "tbl"]] []), (Thread [Frame 0 "Put" (Some W) [Write "tbl"; Release W]] []),
       0, "tbl", false, true.
     repeat split; try reflexivity. lia.
+Qed.
+
+(* ---- serializability is not vacuous: lock points exist and are ordered ---- *)
+(* a complete interleaving of Put (goroutine 0) and Len (goroutine 1) on object 0, with a write/read conflict on "cnt" *)
+Definition c_pl : config := [Thread [] [(0, "Put")]; Thread [] [(0, "Len")]].
+Definition tr_pl : list (nat * label) :=
+  [(0, LStart 0 "Put"); (0, LRead 0 "cfg"); (0, LAcq 0 W); (0, LRead 0 "cnt"); (0, LWrite 0 "tbl"); (0, LWrite 0 "cnt");
+   (0, LRel 0 W); (1, LStart 0 "Len"); (1, LAcq 0 R); (1, LRead 0 "cnt")].
+
+Ltac stp n := eapply E_cons; [eapply Step with (i := n); [reflexivity|]|simpl].
+Ltac callable_first := eexists; split; [reflexivity|split; [reflexivity|]].
+
+Example tr_pl_is_an_execution : exists c, exec good w2 c_pl tr_pl c.
+Proof.
+  eexists. unfold tr_pl, c_pl.
+  stp 0. { apply S_start with (p := [Read "cfg"; Acquire W; Read "cnt"; Write "tbl"; Write "cnt"; Release W; Return]).
+           callable_first. left. reflexivity. }
+  stp 0. { apply S_read. }
+  stp 0. { apply S_acquire; reflexivity. }
+  stp 0. { apply S_read. }
+  stp 0. { apply S_write. }
+  stp 0. { apply S_write. }
+  stp 0. { apply S_release. }
+  stp 1. { apply S_start with (p := [Acquire R; Read "cnt"; Release R]). callable_first. left. reflexivity. }
+  stp 1. { apply S_acquire; reflexivity. }
+  stp 1. { apply S_read. }
+  apply E_nil.
+Qed.
+
+Ltac no_start := intros (x & ox & mx & Hx1 & Hx2 & Hx); unfold tr_pl in Hx;
+  do 10 (destruct x as [|x]; [first [lia | discriminate Hx]|]); lia.
+
+Ltac no_acq q Hq Hn := unfold tr_pl in Hn;
+  do 10 (destruct q as [|q]; [first [lia | discriminate Hn]|]); simpl in Hn; destruct q; discriminate Hn.
+
+Example tr_pl_lock_points : lock_point tr_pl 0 5 2 /\ lock_point tr_pl 1 9 8.
+Proof.
+  split.
+  - exists 0, 0, "Put". split; [reflexivity|]. split; [split; [lia|no_start]|]. split; [split; [lia|no_start]|].
+    split; [right; exists 0, W; reflexivity|].
+    intros q o' md Hq _ Hn. no_acq q Hq Hn.
+  - exists 7, 0, "Len". split; [reflexivity|]. split; [split; [lia|no_start]|]. split; [split; [lia|no_start]|].
+    split; [right; exists 0, R; reflexivity|].
+    intros q o' md Hq _ Hn. no_acq q Hq Hn.
+Qed.
+(* the serializability theorem applied to this execution: the conflicting pair (write of cnt at 5, read of cnt at 9)
+   is ordered as the lock points 2 < 8 *)
+Example tr_pl_serial_order : forall c, exec good w2 c_pl tr_pl c -> forall p1 p2,
+  lock_point tr_pl 0 5 p1 -> lock_point tr_pl 1 9 p2 -> p1 < p2.
+Proof.
+  intros c He p1 p2 L1 L2.
+  assert (Hinit : initial good w2 c_pl).
+  { repeat constructor; simpl; eexists; (split; [reflexivity|reflexivity]). }
+  destruct (lock_ok_sound good w2 c_pl good_ok w2_wf Hinit) as (_ & _ & Hser).
+  apply (Hser tr_pl c He 5 9 0 1 (LWrite 0 "cnt") (LRead 0 "cnt") 0 "cnt" p1 p2); auto; try reflexivity.
+  - right. reflexivity.
+  - left. reflexivity.
 Qed.
